@@ -64,6 +64,64 @@ def respond(kind: int, issuer: int, has_url: bool, url: str, has_index: bool, in
     return ok, (res is not None) | (who is None), "res=%r exc=%r" % (res, exc)
 
 
+NEAR = [F.ACS_POST, F.ACS_POST + "?x=1", F.ACS_POST + "#frag", F.ACS_POST.upper(), F.ACS_POST.replace("http://", "HTTP://"),
+        F.ACS_POST.rstrip("/"), F.ACS_POST + "/", F.ACS_POST + "extra", F.ACS2_POST, F.ACS_REDIRECT, "http://evil.example.org/acs",
+        F.ACS_POST.replace("lingon", "LINGON"), " " + F.ACS_POST, F.ACS_POST + "?", "//lingon.catalogix.se:8087/"]
+
+
+def near_miss(issuer: int, u: int, pbind: int):
+    """Near misses of a registered consumer URL from a concrete catalogue (conclusive even if the
+    comparison in the code under test involves URL parsing that does not close on symbolic text)."""
+    from veriflib.boot import concrete
+    issuer, u, pbind = concrete(issuer), concrete(u), concrete(pbind)
+    rq = samlp.AuthnRequest(id="id-q", version="2.0", issuer=saml.Issuer(text=ISSUERS[issuer]),
+                            assertion_consumer_service_url=NEAR[u], protocol_binding=PBIND[pbind])
+    res = None
+    try:
+        res = SERVER.response_args(rq)
+    except Exception:
+        res = None
+    who = KNOWN[issuer]
+    if res is None:
+        ok = True
+        if who is not None and pbind <= 2:
+            b = PBIND[pbind] or BINDING_HTTP_POST
+            ok = NEAR[u] not in REG[who]["acs"].get(b, [])
+    else:
+        ok = (who is not None) and (res["destination"] == NEAR[u]) and (NEAR[u] in REG[who]["acs"].get(res["binding"], []))
+    return ok, True, "res=%r" % (res,)
+
+
+def sequence(i1: int, i2: int, has_url2: bool, u2: int, same_id: bool):
+    """Two requests in a row on the same IdP object: a correctly answered one from a known SP, then
+    a second one (same or another message ID) from any issuer - the second answer depends only on
+    the second request."""
+    from veriflib.boot import concrete
+    i1, i2, u2, same_id, has_url2 = concrete(i1), concrete(i2), concrete(u2), concrete(same_id), concrete(has_url2)
+    first = [F.SP_ID, F.SP2_ID][i1]
+    rq1 = samlp.AuthnRequest(id="id-same", version="2.0", issuer=saml.Issuer(text=first),
+                             assertion_consumer_service_url=REG[first]["acs"][BINDING_HTTP_POST][0], protocol_binding=BINDING_HTTP_POST)
+    r1 = SERVER.response_args(rq1)
+    ok = r1["destination"] == REG[first]["acs"][BINDING_HTTP_POST][0]
+    rq2 = samlp.AuthnRequest(id="id-same" if same_id else "id-other", version="2.0", issuer=saml.Issuer(text=ISSUERS[i2]),
+                             assertion_consumer_service_url=NEAR[u2] if has_url2 else None, protocol_binding=BINDING_HTTP_POST)
+    res = None
+    try:
+        res = SERVER.response_args(rq2)
+    except Exception:
+        res = None
+    who = KNOWN[i2]
+    if res is None:
+        regs = REG[who]["acs"].get(BINDING_HTTP_POST, []) if who is not None else []
+        if who is not None:
+            ok = ok and ((NEAR[u2] not in regs) if has_url2 else (len(regs) == 0))
+    else:
+        ok = ok and (who is not None) and (res["destination"] in REG[who]["acs"].get(res["binding"], []))
+        if has_url2:
+            ok = ok and (res["destination"] == NEAR[u2])
+    return ok, True, "r1=%r r2=%r" % (r1, res)
+
+
 CONDITIONS = [
     Cond(name="respond", fn="respond",
          params=[("kind", "int"), ("issuer", "int"), ("has_url", "bool"), ("url", "str"), ("has_index", "bool"),
@@ -77,6 +135,21 @@ CONDITIONS = [
          bounds="two registered SPs (one with POST+Redirect ACS, one with POST only) + unknown issuer + whitespace-padded issuer + the IdP itself; "
                 "AssertionConsumerServiceURL absent or ANY string of <= 44 chars (registered ones have 32-40); index absent or any string <= 2 chars; "
                 "ProtocolBinding absent/POST/Redirect/SOAP/Artifact; AuthnRequest and LogoutRequest"),
+]
+
+CONDITIONS += [
+    Cond(name="near_miss", fn="near_miss", params=[("issuer", "int"), ("u", "int"), ("pbind", "int")],
+         pre=["0 <= issuer < %d" % len(ISSUERS), "0 <= u < %d" % len(NEAR), "0 <= pbind < %d" % len(PBIND)],
+         partitions={"quick": [{"issuer": i} for i in range(len(ISSUERS))]}, timeout={"quick": 600, "thorough": 900}, path_timeout=60,
+         functions=["entity.Entity.response_args", "entity.Entity.pick_binding"],
+         bounds="%d near misses of the registered URL (extra query, fragment, case of scheme / host / path, trailing slash, suffix, other SP's URL, other binding's URL, "
+                "leading space, scheme-relative) x 5 issuers x 5 protocol bindings" % len(NEAR)),
+    Cond(name="sequence", fn="sequence", params=[("i1", "int"), ("i2", "int"), ("has_url2", "bool"), ("u2", "int"), ("same_id", "bool")],
+         pre=["0 <= i1 <= 1", "0 <= i2 < %d" % len(ISSUERS), "0 <= u2 < %d" % len(NEAR)],
+         partitions={"quick": [{"i1": a, "i2": b} for a in (0, 1) for b in range(len(ISSUERS))]}, timeout={"quick": 600, "thorough": 900}, path_timeout=60,
+         functions=["entity.Entity.response_args", "entity.Entity.pick_binding"],
+         bounds="two-request histories on one IdP object: answered request from either known SP, then a request with the same or another message ID from any of 5 issuers, "
+                "with no URL or one of the near misses"),
 ]
 
 ASSUMPTIONS = [
